@@ -132,7 +132,8 @@ static void noFile() {
     emit("I", Segs{o});
 }
 int main() {
-    char tmpl[] = "/tmp/verif-io-XXXXXX"; scratchDir = mkdtemp(tmpl);
+    std::string tdir = std::string(getenv("TMPDIR") ? getenv("TMPDIR") : "/tmp") + "/verif-io-XXXXXX"; std::vector<char> tmpl(tdir.begin(), tdir.end()); tmpl.push_back(0);
+    scratchDir = mkdtemp(tmpl.data());
     std::string line;
     while (std::getline(std::cin, line)) {
         auto c = line.find(':'); if (c == std::string::npos) continue;
